@@ -118,6 +118,24 @@ def record_history(ptn, seed, quick):
                                Wm=snap_array_gauss(Wm, 'Wm'), Am=snap_array_gauss(Am, 'Am'), out=snap_array_gauss(out2, 'heff2')))
         if digest_arrays(inputs) != dig0:
             tr.append(dict(ev='raise', exc='an argument of a pure operation (vdot / norm / averages / blocks / local operators) was modified'))
+        # a history: one argument is overwritten in place by the user, then the same quantities are asked for again
+        if rng.random() < 0.5:
+            cfac = int(rng.choice([2, -1, 3]))
+            oid = int(rng.integers(1, 5))
+            obj = [psi, chi, op, rho][oid - 1]
+            k = int(rng.integers(L))
+            if rng.random() < 0.5:
+                obj.A[k] *= cfac
+            else:
+                obj.A[k] = obj.A[k] * cfac
+            tr.append(dict(ev='poke', a=oid, cls='mps' if oid <= 2 else 'mpo', c=cfac))
+            tr.append(dict(ev='vdot', a=2, b=1, val=g(ptn.vdot(chi, psi))))
+            tr.append(dict(ev='vdot', a=1, b=1, val=g(ptn.norm(psi)**2)))
+            tr.append(dict(ev='oip', chi=1, op=3, psi=1, val=g(ptn.operator_average(psi, op))))
+            tr.append(dict(ev='oip', chi=2, op=3, psi=1, val=g(ptn.operator_inner_product(chi, op, psi))))
+            tr.append(dict(ev='oda', rho=4, op=3, val=g(ptn.operator_density_average(rho, op))))
+            BR = ptn.compute_right_operator_blocks(psi, op)
+            tr.append(dict(ev='right_blocks', psi=tens(psi), op=tens(op), blocks=[snap_array_gauss(b, 'BR') for b in BR]))
         # direct transfer steps with independent bra / ket shapes
         dd = int(rng.integers(1, 4))
         sa, sb = (dd, int(rng.integers(1, 3)), int(rng.integers(1, 3))), (dd, int(rng.integers(1, 3)), int(rng.integers(1, 3)))
